@@ -183,9 +183,9 @@ fn alphabet(quick: bool) -> Vec<Op> {
     v.push(Op::Di1(0));
     v.push(Op::Di1(0xA5));
     let volts: Vec<f32> = if quick {
-        vec![0.0, 0.01, 1.0, 2.55, 2.56, 7.0, -1.0, f32::NAN]
+        vec![0.0, 0.01, 0.998, 1.002, 2.55, 2.56, 7.0, -1.0, f32::NAN]
     } else {
-        vec![0.0, 0.005, 0.01, 0.015, 1.0, 2.55, 2.56, 5.0, 7.0, -1.0, f32::NAN, f32::INFINITY]
+        vec![0.0, 0.005, 0.008, 0.012, 0.998, 1.0, 1.002, 2.548, 2.552, 5.0, 7.0, -1.0, f32::NAN, f32::INFINITY]
     };
     for x in volts {
         v.push(Op::Temp(x));
@@ -193,6 +193,63 @@ fn alphabet(quick: bool) -> Vec<Op> {
         v.push(Op::Ai2(x));
     }
     v
+}
+
+/// Comparator thresholds: for every DAC byte and each analog setter, the input walks up and down
+/// through the DAC voltage in steps of different size (1 ulp .. 0.3 V), the status is compared after
+/// every step; repeated for every interrupt source/edge selection of the comparators.
+fn threshold_sweep() -> (u64, Vec<(String, String, String)>) {
+    let res = mc::par_ranges(256, 64, |rg| {
+        let mut bad: Vec<(String, String, String)> = vec![];
+        let mut n = 0u64;
+        for byte in rg {
+            let byte = byte as u8;
+            let v = byte as f32 / 100.0;
+            let ulp = |x: f32, k: i32| f32::from_bits((x.to_bits() as i32 + k).max(0) as u32);
+            let mut walk: Vec<f32> = vec![];
+            for d in [0.3f32, 0.011, 0.004, 0.002, 0.0004] {
+                walk.extend([v - d, v + d, v - d / 2.0, v, v + d / 2.0, v]);
+            }
+            walk.extend([ulp(v, -1), ulp(v, 1), v, ulp(v, 2), ulp(v, -2), 0.0, 5.0, v]);
+            for setter in 0..3u8 {
+                for icr in [0x00u8, 0xC4, 0xCC, 0xC5, 0xCD] {
+                    let mut ops = vec![Op::W(0xF0, byte), Op::W(0xF1, byte)];
+                    if icr != 0 {
+                        ops.push(Op::W(0xF2, icr));
+                    }
+                    for x in &walk {
+                        ops.push(match setter {
+                            0 => Op::Temp(*x),
+                            1 => Op::Ai1(*x),
+                            _ => Op::Ai2(*x),
+                        });
+                        // clear the flip-flop now and then so that every later edge is visible again
+                        if ops.len() % 5 == 0 {
+                            ops.push(Op::W(0xF3, 0));
+                        }
+                    }
+                    n += ops.len() as u64;
+                    if let Some((k, w)) = run_ops(&ops) {
+                        if bad.len() < 4 {
+                            bad.push((k, w, line(&ops)));
+                        }
+                    }
+                }
+            }
+        }
+        (n, bad)
+    });
+    let mut n = 0;
+    let mut bad = vec![];
+    for (c, b) in res {
+        n += c;
+        for x in b {
+            if bad.len() < 6 {
+                bad.push(x);
+            }
+        }
+    }
+    (n, bad)
 }
 
 /// The clamping rule over f32 bit patterns through each of the three analog setters.
@@ -357,6 +414,14 @@ pub fn run() {
             }
         }
     }
+    let (thr_ops, thr_bad) = threshold_sweep();
+    for (k, w, l) in thr_bad {
+        let e = bad.entry(k).or_default();
+        e.0 += 1;
+        if e.1.len() < 3 {
+            e.1.push((l, w));
+        }
+    }
     let (f32_calls, f32_bad) = f32_sweep(!quick);
     for (k, w, l) in f32_bad {
         let e = bad.entry(k).or_default();
@@ -375,10 +440,11 @@ pub fn run() {
     }
     ctx.set("states", stats.states);
     ctx.set("transitions", stats.transitions);
-    ctx.set("traces_validated_against_impl", stats.transitions as u64 + fan_points + f32_calls);
+    ctx.set("traces_validated_against_impl", stats.transitions as u64 + fan_points + f32_calls + thr_ops);
+    ctx.set("threshold_sweep_operations", thr_ops);
     ctx.set("evaluations", stats.transitions as u64 + fan_points + f32_calls);
     ctx.set("distinct_nontrivial", stats.states);
-    ctx.set("rule", "BFS from 3 start boards: every sequence of the operation alphabet to the depth, deduplicated on the bit-exact reference state; after every operation reads of 0xF0-0xF3 and all getters named in the statement are compared with REF-BOARD; f32: every enumerated bit pattern through the three analog setters against the clamp rule and the comparator bits; fan period for all 256 DAC bytes");
+    ctx.set("rule", "BFS from 3 start boards: every sequence of the operation alphabet to the depth, deduplicated on the bit-exact reference state; after every operation reads of 0xF0-0xF3 and all getters named in the statement are compared with REF-BOARD; f32: every enumerated bit pattern through the three analog setters against the clamp rule and the comparator bits; fan period for all 256 DAC bytes; threshold sweep: for every DAC byte x 3 analog setters x 5 comparator interrupt selections the input walks up and down through the DAC voltage in steps from 0.3 V to 1 ulp");
     ctx.set("exhaustive", !stats.cap_hit);
     ctx.set("bounds", format!("BFS depth {} over {} operations; f32 patterns: {}", depth, alpha.len(), if quick { "2^22 (every sign x exponent x 12 leading mantissa bits, trailing bits all-0 and all-1)" } else { "all 2^32" }));
     ctx.set("bfs_frontiers", Json::Arr(stats.frontier_sizes.iter().map(|n| Json::Int(*n as i64)).collect()));
